@@ -1,5 +1,15 @@
 """Which contract families decide which property, and at what claimed level."""
 PROPS = {
+    'C14': {
+        'families': ['contracts.native'],
+        'level': 'other',
+        'technique': 'bounded native run of the preview/determinism contract (stand-in; order-insensitivity obligations in progress)',
+        'text': 'evolve --sql preview compared statement by statement with the --execute trace, and --sql/--hint output compared across '
+                'PYTHONHASHSEED values in fresh interpreters, over generated pending upgrades. Labelled bounded.',
+        'level_note': 'Bounded stand-in only so far.',
+        'explanation': 'bounded native enumeration; not a proof',
+        'not_decided': ['equality of the two separately computed SQL lists (prepare vs batch) beyond the enumerated upgrades'],
+    },
     'C06': {
         'families': ['contracts.native'],
         'level': 'other',
@@ -48,7 +58,7 @@ PROPS = {
         'not_decided': ['whole-history clauses (interleaved management commands)', 'EvolveAppTask.prepare branch selection (in progress)'],
     },
     'C15': {
-        'families': ['contracts.deletion'],
+        'families': ['contracts.deletion', 'contracts.native'],
         'level': 'proof',
         'technique': 'contract-based deductive verification: whole-view frame postconditions, VCs from the real AST, z3/cvc5',
         'text': 'DeleteModel.simulate removes exactly the named model of the simulated app and leaves every other app entry and the '
@@ -60,7 +70,7 @@ PROPS = {
         'not_decided': ['actual table list and rows of the database after purge/delete'],
     },
     'C11': {
-        'families': ['contracts.refs'],
+        'families': ['contracts.refs', 'contracts.native'],
         'level': 'proof',
         'technique': 'contract-based deductive verification: nested loop invariants over the three signature levels, VCs from the real AST, z3/cvc5',
         'text': 'Reference-rewrite postconditions of RenameModel.simulate and RenameAppLabel.simulate: after the rename no relation '
@@ -121,7 +131,7 @@ PROPS = {
         'not_decided': ['that a retry equals an uninterrupted run needs determinism of the whole pipeline (only partly C14)'],
     },
     'C16': {
-        'families': ['contracts.routing', 'contracts.execution'],
+        'families': ['contracts.routing', 'contracts.execution', 'contracts.native'],
         'level': 'proof',
         'technique': 'contract-based deductive verification: VCs generated from the real AST, discharged by z3/cvc5',
         'text': 'is_mutable against an uninterpreted router function (result true iff the routers put the model on the '
